@@ -10,9 +10,9 @@ import random
 from harness.core import cfg_text, Machinery, run_tlc
 from harness.drivers import packet as P
 
-BASE = {"SeqMod": 4, "MaxSwitch": 1, "MaxChunk": 4, "Stricts": "@{TRUE, FALSE}", "Zlibs": "@{TRUE, FALSE}",
-        "CheckMac": True, "MacHasSeq": True, "FreshZOut": True, "FreshZIn": True}
-INV = ["TypeOK", "PrefixOnly", "NoAlien", "AllDelivered", "NeverFailsHonest"]
+BASE = {"SeqMod": 4, "MaxSwitch": 1, "MaxChunk": 4, "Stricts": "@{TRUE, FALSE}", "Zlibs": "@{TRUE, FALSE}", "Mutations": set()}
+INV = ["TypeOK", "PrefixOnly", "NoAlien", "AllDelivered", "NeverFailsHonest", "Caught"]
+MUTANTS = {"nomac", "noseq"}     # receiver without MAC check / MAC without the sequence number
 SCRIPTS = {1: "SSKSS", 2: "SKSKS", 3: "SSSS", 4: "KSSSKS"}
 MASKS = (0x01, 0x80, 0xFF)
 
@@ -47,13 +47,18 @@ class Runner:
 
     def run(self, rec, spec_edits, concrete_ops, stage):
         """spec_edits: [(op, i, region)] in the model's terms; concrete_ops: what apply_edits executes"""
+        if rec.reader_error:
+            self.c.conformance("independent_reader:" + "/".join(map(str, P.framing_class(rec.suite))),
+                               "the independent packet reader cannot open what the sender wrote (%s): %s"
+                               % ("/".join(rec.suite), rec.reader_error))
         body, concrete = P.apply_edits(rec, concrete_ops, self.rnd)
         if body is None:          # the byte edits cancelled each other
             self.skipped += 1
             return
         # a byte deletion / insertion is attributed to the packet in which the stream first differs
+        # (an insertion that amounts to a byte appended behind the last packet touches no packet at all)
         spec_edits = [(op, cx[1], r) if op in ("DelByte", "InsByte") and cx[0] == op else (op, i, r)
-                      for (op, i, r), cx in zip(spec_edits, concrete)]
+                      for (op, i, r), cx in zip(spec_edits, concrete) if cx[0] != "Append"]
         ev_r, delivered, term = P.run_receiver(rec, body)
         ev = rec.events() + [{"a": op, "i": i, "r": r, "got": 0, "seq": -1} for op, i, r in spec_edits] + ev_r \
             + [{"a": "End", "i": 0, "r": "", "got": 0, "seq": -1}]
@@ -139,17 +144,19 @@ def render(rec, atts, rnd):
 
 def run(c):
     rnd = random.Random(c.seed)
-    # ---- M
+    # ---- M: all placements of the attacker's actions; the same exploration also starts behaviours with a seeded
+    # defect (no MAC check; MAC without sequence number), each of which must be noticed by a property
     if c.quick:
         c.mc_holds("PacketLayer", cfg_text(constants=dict(BASE, NMsgs=3, MaxTamper=1), invariants=INV, properties=["StopsAtFirstBad"]),
                    name="1 attack, 3 messages, 1 key switch")
     else:
         c.mc_holds("PacketLayer", cfg_text(constants=dict(BASE, NMsgs=3, MaxTamper=2), invariants=INV, properties=["StopsAtFirstBad"]),
-                   name="2 attacks, 3 messages, 1 key switch", timeout=1200)
-    c.mc("PacketLayer", cfg_text(constants=dict(BASE, NMsgs=2, MaxTamper=1, CheckMac=False), invariants=INV), expect="PrefixOnly",
-         name="mutant: no MAC check")
-    c.mc("PacketLayer", cfg_text(constants=dict(BASE, NMsgs=2, MaxTamper=1, MacHasSeq=False), invariants=INV), expect="PrefixOnly",
-         name="mutant: MAC without sequence number")
+                   name="2 attacks, 3 messages, 1 key switch", timeout=1500)
+    r = c.mc_holds("PacketLayer", cfg_text(constants=dict(BASE, NMsgs=2, MaxTamper=1, Zlibs="@{FALSE}", Mutations=MUTANTS), invariants=INV),
+                   name="seeded defects %s" % sorted(MUTANTS), workers=1)
+    caught = {x[1]: x for x in r.printed("CAUGHT")}
+    if set(caught) != MUTANTS or not all(x[2] or x[3] for x in caught.values()):
+        raise Machinery("seeded defects not all noticed by PrefixOnly / NoAlien: %s" % list(caught.values()))
 
     # ---- framing classes and their representative suites
     classes = collections.OrderedDict()
